@@ -26,8 +26,10 @@ VERIF = os.path.dirname(os.path.dirname(os.path.abspath(__file__)))
 LEAN = os.path.join(VERIF, 'lean')
 REPO = os.environ.get('PAGEXML_REPO', '/repo')
 DRIVER = os.path.join(LEAN, '.lake', 'build', 'bin', 'driver')
-EVIDENCE_DIR = os.path.join(VERIF, 'evidence')
-REPLAY_DIR = os.path.join(VERIF, 'replays')
+# (both can be redirected when a check is tried against a deliberately broken tree, so that the
+#  committed evidence is only ever written by runs against /repo itself)
+EVIDENCE_DIR = os.environ.get('VERIF_EVIDENCE_DIR') or os.path.join(VERIF, 'evidence')
+REPLAY_DIR = os.environ.get('VERIF_REPLAY_DIR') or os.path.join(VERIF, 'replays')
 KNOWN_FINDINGS = os.path.join(VERIF, 'known_findings.json')
 GUARD = 'KNAW_HUC_PAGEXML_VERIF'
 
